@@ -250,7 +250,54 @@ func percentAgreement(c *core.Ctx) {
 			}
 		}
 	}
-	if sprintf == nil || passWrite == nil {
+	// the escape written digit by digit from a 16-character hex table:
+	// WriteByte('%'); WriteByte(T[c>>4]); WriteByte(T[c&0x0f])
+	hexTable := ""
+	var hexAt ast.Node
+	if sprintf == nil {
+		var writes []*ast.CallExpr
+		for _, call := range encSlow.calls {
+			if fn, ok := astx.Callee(info, call).(*types.Func); ok && fn.Name() == "WriteByte" && len(call.Args) == 1 && astx.Contains(encSlow.loop, call) {
+				writes = append(writes, call)
+			}
+		}
+		digit := func(e ast.Expr, hi bool) (string, bool) {
+			ix, ok := astx.Unparen(e).(*ast.IndexExpr)
+			if !ok {
+				return "", false
+			}
+			table, ok := astx.ConstString(info, ix.X)
+			if !ok || len(table) != 16 {
+				return "", false
+			}
+			be, ok := astx.Unparen(ix.Index).(*ast.BinaryExpr)
+			if !ok || !encSlow.isCh(info, be.X) {
+				return "", false
+			}
+			k, isC := astx.ConstInt(info, be.Y)
+			if !isC {
+				return "", false
+			}
+			if hi && be.Op == token.SHR && k == 4 {
+				return table, true
+			}
+			if !hi && be.Op == token.AND && k == 0x0f {
+				return table, true
+			}
+			return "", false
+		}
+		for i := 0; i+2 < len(writes); i++ {
+			if v, isC := astx.ConstInt(info, writes[i].Args[0]); !isC || v != '%' {
+				continue
+			}
+			t1, ok1 := digit(writes[i+1].Args[0], true)
+			t2, ok2 := digit(writes[i+2].Args[0], false)
+			if ok1 && ok2 && t1 == t2 && astx.Precedes(encSlow.loop, writes[i], writes[i+1]) && astx.Precedes(encSlow.loop, writes[i+1], writes[i+2]) {
+				hexTable, hexAt = t1, writes[i]
+			}
+		}
+	}
+	if (sprintf == nil && hexTable == "") || passWrite == nil {
 		c.Undecided("encode/slow-shape", encSlow.fd.Pos(), "expected an fmt.Sprintf escape and a WriteByte(c) pass-through in the loop (sprintf=%v pass=%v)", sprintf != nil, passWrite != nil)
 		return
 	}
@@ -272,13 +319,23 @@ func percentAgreement(c *core.Ctx) {
 	}
 	c.Check(bad == "", "encode/slow-pass", passWrite.Pos(), "bytes written unescaped are within 0x20..0x7E and not '%%' (all 256 byte values decided). leaked:%s", bad)
 	// format
+	if sprintf == nil {
+		c.Check(hexTable == "0123456789ABCDEF" || hexTable == "0123456789abcdef", "encode/escape-format", hexAt.Pos(), "escape is '%%' followed by the two hex digits of the byte, taken from the table %q by c>>4 and c&0x0f", hexTable)
+	}
 	fmtArg := 0
-	if astx.IsPkgFunc(astx.Callee(info, sprintf), "fmt", "Fprintf") {
+	if sprintf == nil {
+		// (the decoder part follows)
+	} else if astx.IsPkgFunc(astx.Callee(info, sprintf), "fmt", "Fprintf") {
 		fmtArg = 1
 	}
-	format, ok := astx.ConstString(info, sprintf.Args[fmtArg])
+	format, ok := "", false
+	if sprintf != nil {
+		format, ok = astx.ConstString(info, sprintf.Args[fmtArg])
+	}
 	escByte := int64(-1)
-	if ok && (format == "%%%02X" || format == "%%%02x") && len(sprintf.Args) == fmtArg+2 {
+	if sprintf == nil {
+		escByte = '%'
+	} else if ok && (format == "%%%02X" || format == "%%%02x") && len(sprintf.Args) == fmtArg+2 {
 		escByte = '%'
 		arg := sprintf.Args[fmtArg+1]
 		isByte := false
